@@ -96,6 +96,10 @@ def run(ctx, tier):
                 if not okr:
                     probs2.append('forward edge index: ' + whyr)
                 src = P.iter_source(idx)
+                if src is None and len(idx) == 1:
+                    n0 = next(iter(idx))
+                    if n0[0] == 'field' and n0[2] == '0' and P.enumerate_base(n0[1]) is not None:
+                        src = P.iter_source(n0[1])          # the index of `for (i, other) in roadmap.iter().enumerate()`
                 if src is None:
                     probs2.append('forward edge index is not a scan variable (duplicates / self-links possible)')
             # a mirror push for the same node: list with identical pushes under the same conditions
@@ -320,6 +324,14 @@ def _query(ctx, p, b, cont, c, r_q):
                  ok=not probs, site=b.loc(bi))
         for o, pr in enumerate(probs):
             r_q.violations.append(Violation('C18', 'C18.query', b.path, kind, pr, loc=b.loc(bi), ordinal=o))
+    # the goal set kept as a per-milestone mask (`roadmap.iter().map(|n| goal.is_satisfied(&n.state)).collect()`): complete by
+    # construction - one entry per milestone, no filter
+    if found['goal'] < 1:
+        for bi, t in b.calls():
+            if bi in reach and t['func'].get('path') == 'std::iter::Iterator::collect' and not t['dest']['p'] and \
+                    P.goal_mask_info(ctx, p, fn.call_terms(t, bi)) == cont:
+                found['goal'] += 1
+                r_q.inst('%s: the goal set at %s is a mask over every milestone' % (b.path, b.loc(bi)), ok=True, site=b.loc(bi))
     for kind, n in found.items():
         if n < 1:
             r_q.violations.append(Violation('C18', 'C18.query', b.path, 'floor:' + kind, 'no %s list found in the roadmap query (unrecognised shape)' % kind, loc=b.loc(0)))
@@ -410,6 +422,8 @@ def _bfs(ctx, p, b, cont, c, r_bfs):
         for n in terms:
             if n[0] == 'call' and n[1].endswith('::contains') and len(n[2]) == 2 and n[2][1] in deq:
                 gt = True
+            if n[0] == 'index' and n[2] in deq and P.goal_mask_info(ctx, p, n[1]) == cont:
+                gt = True               # `is_goal[current]` with a per-milestone goal mask
     if not gt:
         probs.append('the goal membership test is not made on the dequeued index')
     r_bfs.inst('%s: breadth-first search discipline' % b.path, ok=not probs, site=b.loc(0))
